@@ -41,6 +41,7 @@ CONSTANTS
   DGt,         \* a deadline later than L                            (400)
   Wk,          \* when the external wake-up happens (helper thread)  (60)
   Ik,          \* when the wait is interrupted by a signal (EINTR)   (15)
+  B,           \* how long the before_sleep hook of "life_slow" takes (50)
   Space,       \* "replay": timer sets of <= 2 timers + the full set, source sets {} / singletons / all
                \* "full"  : every subset of the timers x every subset of the sources (model checking only)
   Variants     \* deliberately wrong behaviours (non-vacuity), {} = the code as it is in /repo:
@@ -53,11 +54,14 @@ CONSTANTS
                \*   "disabled_still_polled"   disable() leaves the fd in the poller
                \*   "closed_ping_stays"       a ping whose handles are gone stays readable and registered (pipe-EOF style)
                \*   "chan_closed_renotifies"  the channel re-pings itself after Closed instead of removing itself
+               \*   "deadline_from_dispatch_start"  Poll::poll turns the next deadline into a wait with the clock value read at
+               \*                             the start of the dispatch, i.e. before the before_sleep hooks ran
 
 Inf == 1000000000
 
 ASSUME /\ 0 < DLt /\ DLt < S /\ S < DMid /\ DMid < L /\ L < DGt /\ DGt < Inf /\ DNeg > 0
        /\ Wk \notin {0, DLt, S, DMid, L, DGt} /\ 0 < Ik /\ Ik < DLt
+       /\ B \notin {0, DLt, S, DMid, L, DGt, Wk} /\ S < B /\ B < DMid
 
 MinOf(X) == CHOOSE x \in X : \A y \in X : x <= y
 Min2(a, b) == IF a <= b THEN a ELSE b
@@ -76,7 +80,8 @@ SourceNames == {"ping_live",      \* idle ping, its Ping handle is alive
                 "exec_idle",      \* executor whose only future is pending
                 "gen_idle",       \* Generic on a pipe with nothing to read
                 "gen_disabled",   \* Generic on a readable pipe, disabled
-                "life_synth"}     \* lifecycle source whose before_sleep returns one synthetic event
+                "life_synth",     \* lifecycle source whose before_sleep returns one synthetic event
+                "life_slow"}      \* lifecycle source whose before_sleep takes B (first dispatch only) and returns None
 \* sources that have exactly one event pending: the dispatch returns at once, and they must not keep the loop spinning
 OneOff   == {"ping_closed", "chan_closed", "life_synth"}
 \* ... and of those, the ones that remove themselves
@@ -90,6 +95,8 @@ SelfGone == {"ping_closed", "chan_closed"}
 (*   src   set of source names                                             *)
 (*   wk    time of the external wake-up (Inf = none)                       *)
 (*   wake  "none" / "signal" (LoopSignal::wakeup) / "ping" (Ping::ping)    *)
+(*   bs    when the before_sleep hooks are over (0 = they take no time):   *)
+(*         the timeout counts from then, the timer deadlines do not move   *)
 (***************************************************************************)
 Armed(q)   == {n \in DOMAIN q.tm : q.tm[n] # Inf}
 Rel(d)     == IF d < 0 THEN 0 ELSE d
@@ -97,7 +104,7 @@ Pending(q) == q.src \cap OneOff # {}
 
 \* W: how long the dispatch waits
 SpecWait(q) ==
-  MinOf({q.to, q.wk} \cup {Rel(q.tm[n]) : n \in Armed(q)} \cup (IF Pending(q) THEN {0} ELSE {}))
+  Max2(q.bs, MinOf({IF q.to = Inf THEN Inf ELSE q.to + q.bs, q.wk} \cup {Rel(q.tm[n]) : n \in Armed(q)} \cup (IF Pending(q) THEN {0} ELSE {})))
 
 \* the timers that must fire in this dispatch: the limit, and everything due no later than the limit
 SpecFire(q) == {n \in Armed(q) : q.tm[n] <= SpecWait(q)}
@@ -117,7 +124,7 @@ SpecAfter(q, b, fired, s2) ==
   [to |-> s2,
    tm |-> [n \in DOMAIN q.tm \ fired |-> IF q.tm[n] = Inf THEN Inf ELSE q.tm[n] - b],
    src |-> q.src \ OneOff,
-   wk |-> Inf, wake |-> "none"]
+   wk |-> Inf, wake |-> "none", bs |-> 0]
 
 (***************************************************************************)
 (* The configuration space                                                 *)
@@ -133,7 +140,7 @@ Configs ==
      /\ c.intr = 1 => c.wake = "none" /\ (Space = "full" \/ c.src \in {{}, SourceNames})}
 
 Q(c) == [to |-> c.to, tm |-> [n \in c.tm |-> D(n)], src |-> c.src,
-         wk |-> IF c.wake = "none" THEN Inf ELSE Wk, wake |-> c.wake]
+         wk |-> IF c.wake = "none" THEN Inf ELSE Wk, wake |-> c.wake, bs |-> IF "life_slow" \in c.src THEN B ELSE 0]
 
 (***************************************************************************)
 (* THE CODE-SHAPED MODEL of two consecutive dispatches:                    *)
@@ -201,14 +208,16 @@ BeforeSleep ==
      IN /\ synth' = IF syn THEN {"life_synth"} ELSE {}
         /\ to' = IF syn /\ ~V("synthetic_not_forced") THEN Some(0) ELSE to
   /\ bsn' = bsn + 1
+  \* user code in a before_sleep hook takes time
+  /\ now' = now + (IF "life_slow" \in c.src /\ k = 1 THEN B ELSE 0)
   /\ pc' = "poll_compute"
-  /\ UNCHANGED <<c, k, now, start, heap, polled, cnt, eff, dl, evs, wakeAt, intrAt, out>>
+  /\ UNCHANGED <<c, k, start, heap, polled, cnt, eff, dl, evs, wakeAt, intrAt, out>>
 
 \* sys.rs Poll::poll, "Adjust the timeout for the timers", then polling::Poller::wait computes its deadline
 PollCompute ==
   /\ pc = "poll_compute"
   /\ LET nd == IF DOMAIN heap = {} THEN None ELSE Some(MinOf({heap[n] : n \in DOMAIN heap}))     \* next_deadline()
-         nt == IF IsSome(nd) THEN Some(SatSub(nd[1], now)) ELSE None                            \* .map(saturating_duration_since(now))
+         nt == IF IsSome(nd) THEN Some(SatSub(nd[1], IF V("deadline_from_dispatch_start") THEN start ELSE now)) ELSE None                            \* .map(saturating_duration_since(now))
          e  == IF IsSome(to) /\ IsSome(nt)
                THEN Some(IF V("max_instead_of_min") THEN Max2(to[1], nt[1]) ELSE Min2(to[1], nt[1]))   \* timeout.min(next_timeout)
                ELSE IF V("none_ignores_timers") THEN to
@@ -309,10 +318,10 @@ Inv_C12_Second ==
                   /\ out[2].removed = SpecFire(Q2)
 \* sanity of the oracle itself: a zero timeout never blocks; without events the wait is the Min of timeout and deadlines
 Inv_C12_Oracle ==
-  /\ c.to = 0 => SpecWait(Q1) = 0
-  /\ SpecWait(Q1) <= c.to
-  /\ \A n \in Armed(Q1) : SpecWait(Q1) <= Rel(Q1.tm[n])
-  /\ (c.wake = "none" /\ ~Pending(Q1)) =>
+  /\ c.to = 0 => SpecWait(Q1) = Q1.bs
+  /\ c.to # Inf => SpecWait(Q1) <= c.to + Q1.bs
+  /\ \A n \in Armed(Q1) : SpecWait(Q1) <= Max2(Q1.bs, Rel(Q1.tm[n]))
+  /\ (c.wake = "none" /\ ~Pending(Q1) /\ Q1.bs = 0) =>
         SpecWait(Q1) = MinOf({c.to} \cup {Rel(D(n)) : n \in c.tm \ {"far"}})
   /\ SpecWait(Q1) # Inf =>
         /\ SpecWait(Q2) <= S
@@ -331,7 +340,7 @@ Export ==
     PrintT(<<"CFG", ToJson(
       [to |-> Fin(c.to),
        tm |-> {[n |-> n, d |-> Fin(D(n))] : n \in c.tm},
-       src |-> c.src, wake |-> c.wake, wk |-> Wk, intr |-> c.intr, ik |-> Ik, s2 |-> S,
+       src |-> c.src, wake |-> c.wake, wk |-> Wk, intr |-> c.intr, ik |-> Ik, s2 |-> S, bs |-> Q1.bs,
        W |-> Fin(SpecWait(Q1)), fire |-> SpecFire(Q1), cbs |-> SpecCbs(Q1), removed |-> SpecRemoved(Q1),
        W2 |-> IF SpecWait(Q1) = Inf THEN -1 ELSE SpecWait(Q2),
        fire2 |-> IF SpecWait(Q1) = Inf THEN {} ELSE SpecFire(Q2)])>>)
